@@ -19,6 +19,10 @@ type Xing = (CT, [usize; 4]);
 type Diag = Vec<Xing>;
 
 fn ct_str(t: CT) -> &'static str { match t { CT::X => "X", CT::Xm => "Xm", CT::V => "V", CT::H => "H" } }
+fn ct_of(t: CrossingType) -> CT {
+    match t { CrossingType::X => CT::X, CrossingType::Xm => CT::Xm, CrossingType::V => CT::V, CrossingType::H => CT::H }
+}
+
 fn ct_real(t: CT) -> CrossingType {
     match t { CT::X => CrossingType::X, CT::Xm => CrossingType::Xm, CT::V => CrossingType::V, CT::H => CrossingType::H }
 }
@@ -280,6 +284,49 @@ fn case_r(s: &mut Sink, d: &Diag) {
     s.count(&format!("R.n.{:02}", n));
     s.count_n("R.states", 1 << n);
     s.case(&format!("R {}", txt), &format!("{}|h={}|ck=1", toks.join(","), hash), n > 0);
+}
+
+/// the same states reached ONE CROSSING AT A TIME through `resolved_at(i, bit)` in a random order (the index `i` counts the
+/// crossings that are still unresolved): the result must be the diagram `resolved_by` gives, with the same circles
+fn case_stepwise(s: &mut Sink, r: &mut Rng, d: &Diag) {
+    let txt = diag_str(d);
+    let unresolved: Vec<usize> = (0..d.len()).filter(|&i| matches!(d[i].0, CT::X | CT::Xm)).collect();
+    let n = unresolved.len();
+    if n < 2 { return }
+    let l = real_link(d);
+    for _ in 0..4 {
+        let k = r.below(1u64 << n) as usize;
+        let mut order: Vec<usize> = (0..n).collect();      // positions among the originally unresolved crossings
+        r.shuffle(&mut order);
+        let mut remaining: Vec<usize> = (0..n).collect();
+        let mut cur = l.clone();
+        let mut ok = true;
+        let mut steps = vec![];
+        for &pos in &order {
+            let i = remaining.iter().position(|&p| p == pos).unwrap();   // index among the still unresolved ones
+            let bit = (k >> pos) & 1 == 1;
+            steps.push(format!("resolved_at({},{})", i, bit as u8));
+            let c2 = cur.clone();
+            match guard(move || c2.resolved_at(i, Bit::from(bit))) { Some(x) => cur = x, None => { ok = false; break } }
+            remaining.remove(i);
+        }
+        let mut rd = d.clone();
+        for (pos, &i) in unresolved.iter().enumerate() { rd[i].0 = resolve_ct(rd[i].0, (k >> pos) & 1 == 1); }
+        let want = uf_classes(&rd);
+        let detail;
+        if ok {
+            let types_ok = cur.data().iter().zip(rd.iter()).all(|(c, w)| ct_of(c.ctype()) == w.0);
+            let cur2 = cur.clone();
+            let comps = guard(move || cur2.components());
+            let circles_ok = matches!(&comps, Some(cs) if cs.iter().all(|p| p.is_circle()) && edge_sets(cs) == want);
+            ok = types_ok && cur.crossing_num() == 0 && circles_ok;
+            detail = format!("types_ok={} circles={:?} expected {}", types_ok, comps.as_ref().map(|c| c.len()), want.len());
+        } else { detail = "panic".to_string(); }
+        s.oracle(ok, "resolving the crossings one at a time (resolved_at, any order) reaches the same resolution state with the same circles",
+            &format!("{} state={} via {}", txt, k, steps.join(".")), &detail);
+        s.eval_only(&format!("stepwise {} state={} order={:?}", txt, k, order), true);
+        s.count("S.stepwise");
+    }
 }
 
 /// partially resolved diagram: components only
@@ -610,6 +657,7 @@ fn main() {
         let kind = format!("corpus:{}", kind);
         if let Some(o) = case_l(&mut s, &d, &kind) { if !d.is_empty() { variants(&mut s, &mut r, &d, &o, &kind); } }
         case_r(&mut s, &d);
+        case_stepwise(&mut s, &mut r, &d);
         for i in 0..d.len() { for j in 0..4 { case_t(&mut s, &d, i, j); } }
     }
     for t in [CT::X, CT::Xm, CT::V, CT::H] {
@@ -643,6 +691,7 @@ fn main() {
         let Some(d) = load_table(&name) else { s.count("table.load-failed"); continue };
         if !is_valid(&d) { s.count("table.invalid"); continue }
         if let Some(o) = case_l(&mut s, &d, "table") { variants(&mut s, &mut r, &d, &o, "table"); }
+        if d.len() <= 12 && r.chance(1, 2) { case_stepwise(&mut s, &mut r, &d); }
         if d.len() <= 10 { if d.len() <= 8 || r.chance(1, 3) { case_r(&mut s, &d); } }
         else if d.len() <= r_limit && r_budget_big > 0 && r.chance(1, 4) { r_budget_big -= 1; case_r(&mut s, &d); }
         if r.chance(1, 8) { let i = r.below(d.len() as u64) as usize; let j = r.below(4) as usize; case_t(&mut s, &d, i, j); }
@@ -658,6 +707,7 @@ fn main() {
         if !Orient::new(&d).consistent { s.count("gen.inconsistent(bug in generator)"); s.oracle(false, "generator produced an inconsistently oriented code (harness bug)", &diag_str(&d), &kind); continue }
         if let Some(o) = case_l(&mut s, &d, &kind) { if r.chance(1, 2) { variants(&mut s, &mut r, &d, &o, &kind); } }
         let n = d.len();
+        if n <= 12 && r.chance(1, 2) { case_stepwise(&mut s, &mut r, &d); }
         if n <= 7 || (n <= 10 && r.chance(1, 4)) { case_r(&mut s, &d); }
         else if n <= r_limit && r_budget_gen > 0 && (n >= 12 || r.chance(1, 3)) { r_budget_gen -= 1; case_r(&mut s, &d); }
         if r.chance(1, 6) && n > 0 {
